@@ -431,6 +431,9 @@ def run(tier, seed):
                    json.dumps(ck.kdis[:2], default=str)[:1800])
     rep.obligation("K-C10-param: substituted value = lookupP (pVars defines defaults) (theorem defines_precedence)", "K", not pdis,
                    json.dumps(pdis[:2], default=str)[:1200])
+    tn = (model.ask("C10 tplnames") or "").split()
+    rep.count("clause regexps of the current source that are templates (of %d)" % 33, len(tn))
+    rep.sample({"template_clause_regexps": tn})
     rep.obligation("K-C10l: printed clause lines matched by a template clause regexp are renderings of their template (the lines of theorem printed_clause_line_parses)", "K", not ldis,
                    json.dumps(ldis[:2], default=str)[:1200])
     rep.obligation("K-C10t: escapeNl and the reader's joining of continuation lines = model (Escape.escapeNl, Reader.gather) on generated texts", "K", not tdis,
